@@ -419,11 +419,18 @@ func sandbox() (string, error) {
 
 type osReader struct{ *os.File }
 
+var (
+	sharedSandbox    string
+	sharedSandboxErr error
+)
+
 func doFsPut(o *vh.Out, rootRel, fullRel string) {
-	s, err := sandbox()
-	if s != "" {
-		defer os.RemoveAll(s)
+	// the sandbox is read-only for the ops: built once per exec process, removed by the last op of a case
+	// that used it (a later case rebuilds it)
+	if sharedSandbox == "" {
+		sharedSandbox, sharedSandboxErr = sandbox()
 	}
+	s, err := sharedSandbox, sharedSandboxErr
 	if err != nil {
 		o.Fail("sandbox", "%v", err)
 		o.Emit("sandbox-error")
@@ -478,6 +485,12 @@ func doFsPut(o *vh.Out, rootRel, fullRel string) {
 }
 
 func exec(c vh.Case, o *vh.Out) {
+	defer func() {
+		if sharedSandbox != "" {
+			os.RemoveAll(sharedSandbox)
+			sharedSandbox, sharedSandboxErr = "", nil
+		}
+	}()
 	for _, line := range c.Ops {
 		f := strings.Fields(line)
 		switch {
